@@ -8,7 +8,7 @@ import GMGProofs.Lemmas.Concrete7
 * the residual is affine: `take o (f + g) (x + w) = take o f x + take o g w`.
 -/
 namespace Concrete
-open Stencil Scalar Cycle SparseLU
+open Stencil Scalar MGCycle SparseLU
 
 section AnyField
 variable {K : Type} [_root_.Field K]
